@@ -24,7 +24,10 @@ AXES = {
     "FPType": [0, 1, 2],
     "tracking": ["@track_inside|FPTrack=3", "@track_edges|FPTrack=3", "@track_edges|FPTrack=1", "@track_edges|FPTrack=2", "@track_outside|FPTrack=0", "@track_inside|FPTrack=1"],
     "LinearRF": ["false"],
-    "RFmod": ["RFPhaseModAmplitude=1|RFPhaseModFrequency=40000", "RFPhaseSpread=0.1", "RFAmplitudeSpread=0.001"],
+    "RFmod": ["RFPhaseModAmplitude=1|RFPhaseModFrequency=40000", "RFPhaseSpread=0.1", "RFAmplitudeSpread=0.001",
+              # both RF models with modulation / noise over more than one synchrotron period (the modulation queue must cover every step)
+              "RFPhaseSpread=0.1|rotations=1.5", "RFPhaseSpread=0.1|LinearRF=false|rotations=1.5", "RFPhaseModAmplitude=1|RFPhaseModFrequency=40000|LinearRF=false|rotations=2.25",
+              "RFAmplitudeSpread=0.3|LinearRF=false|rotations=1.25|StepsPerTs=4"],
     "PhaseSpaceShiftX": [2, -3, 2.5],
     "PhaseSpaceShiftY": [2, -3],
     "StepsPerTs": [1, 2, 4, 50],
@@ -207,10 +210,12 @@ def run(res, tier):
         if c:
             res.violate("C17/bin/%s" % c[0], label, c[1], replay=dict(cmd=r["cmd"]))
     res.coverage["outcomes"] = outcomes
-    # ---- valgrind subset: uninitialised values in the file readers
+    # ---- valgrind subset: uninitialised values in the file readers ...
     vexe = pl.build.build_bin("vg")
     vcases = [c for c in filecases if any(t in c[0] for t in ("(none)", "lines=empty", "lines=short", "lines=text", "lines=valid", "lines=nan", "lines=naninf", "lines=inside"))]
     vcases = vcases[:300] if tier == "thorough" else [c for c in vcases if c[0].count(",") == 0][:14]
+    # ... and in every single deviation of the configuration domain (uninitialised values are invisible to the sanitizer build)
+    vcases = [c for c in cases if c[0] == "base" or c[0].startswith("dev1 ")] + vcases
 
     def dov(ic):
         i, (label, a) = ic
